@@ -291,6 +291,8 @@ func NewReporter(opts Options) (Reporter, error) {
 		stringInterner:  cache.NewStringInterner(),
 		tagCache:        cache.NewTagCache(),
 	}
+	// n.b. timeLoop only refreshes the clock; reports may arrive before it runs.
+	r.now.Store(time.Now().UnixNano())
 
 	internalTags := map[string]string{
 		"version":  tally.Version,
